@@ -91,6 +91,12 @@ func normMediatype(mt string) string {
 	return typ + ";" + strings.Join(params, ";")
 }
 
+// Payload returns the decoded bytes.
+func (d decoded) Payload() []byte { return d.payload }
+
+// Mediatype returns the normalised media type.
+func (d decoded) Mediatype() string { return d.mediatype }
+
 var errNotDataURI = errors.New("not a data URI")
 
 // Decode is the reference decoder. strict rejects malformed percent escapes and base64.
